@@ -950,6 +950,11 @@ impl Session {
                 combined.extend_from_slice(&buffer);
                 buffer = combined;
                 buf.clear();
+
+                // Keep holding the buffer lock until the buffered frames have
+                // reached the transport: a concurrent writer must not be able
+                // to overtake them (the settings frame has to be first).
+                return self.write_with_padding(buffer).await;
             }
         }
 
